@@ -1,7 +1,7 @@
 """gram.driver -- fan programs out over a process pool and aggregate."""
 from __future__ import annotations
 
-from typing import Any, Callable, Dict, List
+from typing import Any, Callable, Dict, List, Optional
 
 import vlib
 
@@ -12,25 +12,39 @@ def chunked(items: List[Any], n: int) -> List[List[Any]]:
 
 
 class ChunkWorker:
-    def __init__(self, worker: Callable[[Any], Dict[str, Any]]) -> None:
+    def __init__(self, worker: Callable[[Any], Dict[str, Any]], soft: Optional[set] = None) -> None:
         self.worker = worker
+        self.soft = soft or set()
 
     def __call__(self, chunk: List[Any]) -> List[Dict[str, Any]]:
         out = []
         for item in chunk:
             g = vlib.guarded(self.worker)(item)
+            if 'harness_error' in g and g['harness_error'].startswith('Inconclusive') and _key(item) in self.soft:
+                # a SAMPLED program (beyond the exhaustive bound) whose exploration or a query ran out of budget is
+                # skipped and counted; it is not part of the exhaustive claim and never counts as held
+                g = {'status': 'sampled_over_budget', 'prog': str(item[0])[:160], 'layout': '', 'bad': [], 'paths': 0, 'stats': {},
+                     'kind': item[0] if isinstance(item[0], str) else 'program', 'item': str(item)[:160], 'assumptions': [],
+                     'exhausted': True, 'why': g['harness_error'][:120]}
             out.append(g)
         return out
 
 
-def run_items(worker: Callable[[Any], Dict[str, Any]], items: List[Any]) -> List[Dict[str, Any]]:
+def _key(item) -> str:
+    if isinstance(item, tuple) and item and isinstance(item[0], str):
+        return repr((item[0], item[1]))   # (kind, payload) items
+    return repr(item[0]) if isinstance(item, tuple) else repr(item)
+
+
+def run_items(worker: Callable[[Any], Dict[str, Any]], items: List[Any], soft_items: Optional[List[Any]] = None) -> List[Dict[str, Any]]:
     # spread expensive neighbours (enumeration order groups similar programs) over the workers
     import random
     order = list(range(len(items)))
     random.Random(12345).shuffle(order)
     shuffled = [items[i] for i in order]
     chunks = chunked(shuffled, vlib.ncpu() * 8)
-    res = vlib.pmap(ChunkWorker(worker), chunks)
+    soft = {repr(p) for p in (soft_items or [])}   # keys as produced by _key()
+    res = vlib.pmap(ChunkWorker(worker, soft), chunks)
     flat = [r for ch in res for r in ch]
     out: List[Any] = [None] * len(items)
     for pos, i in enumerate(order):
